@@ -60,7 +60,11 @@ BlockCore(r, d, ins, st0) ==
       po == r.post.regs
       badRegs == {n \in {"BA", "I", "X", "Y", "U", "S"} : s1.r[n] # po[n]}
       dstExt == ins.ops[1].k \in {"EAddr", "EReg", "EIMem"}
-  IN IF ins.cls # "MVL" \/ r.post.err = 1 THEN <<"NoError", "">>
+      \* an external range that runs over either end of the 1 MiB space is left open, exactly as in Core (Unspecified)
+      odir(o) == IF o.k = "EReg" /\ o.mode = 3 THEN -1 ELSE 1
+      rawBad == \E i \in 1..Len(ins.ops) : \E a \in RawRange(st0, ins.ops[i], I0, odir(ins.ops[i])) \cup PtrCells(st0, ins.ops[i]) : a < 0 \/ a >= M20
+  IN IF rawBad THEN <<"unspec", "">>
+     ELSE IF ins.cls # "MVL" \/ r.post.err = 1 THEN <<"NoError", "">>
      ELSE IF r.post.len # d.len THEN <<"Length", "">>
      ELSE IF po.PC # (st0.r.PC + d.len) % M20 THEN <<"NextPC", <<(st0.r.PC + d.len) % M20, po.PC>> >>
      ELSE IF badRegs # {} THEN LET n == CHOOSE n \in badRegs : TRUE IN <<IF s1.r[n] = st0.r[n] THEN "FrameReg" ELSE "ResultReg", <<n, s1.r[n], po[n]>> >>
